@@ -4,8 +4,8 @@ import json, os, re
 R = json.load(open('/verif/seeded/RESULTS.json'))
 def key(k):
     i, s = k.split('/')
-    m = re.match(r'(r2-)?(\d+)', s)
-    return (i, 1 if m.group(1) else 0, int(m.group(2)))
+    m = re.match(r'(?:r(\d)-)?(\d+)', s)
+    return (i, int(m.group(1) or 1), int(m.group(2)))
 rows = []
 for k in sorted(R, key=key):
     meta = os.path.join('/verif/seeded', k, 'meta.json')
